@@ -58,6 +58,14 @@ def compositions(order, parts):
             yield (first,) + tail
 
 
+
+def _mask_array(m):
+    """Elimination mask as the library accepts it: boolean, or 0/1 integers (both forms are used by the library's own tests);
+    the form is chosen deterministically by the parity of the number of eliminated elements so that both are exercised."""
+    m = np.array(m, dtype=bool)
+    return m.astype(int) if int(m.sum()) % 2 else m
+
+
 class Series:
     """Dense series: dict multi-order -> N x M object matrix of SymC (absent = zero)."""
 
@@ -232,7 +240,7 @@ class Problem:
         if fd is None:
             return {}
         if isinstance(fd, dict):
-            return {"fully_diagonalize": {int(b): np.array(m, dtype=bool) for b, m in fd.items()}}
+            return {"fully_diagonalize": {int(b): _mask_array(m) for b, m in fd.items()}}
         return {"fully_diagonalize": tuple(fd)}
 
     def run(self):
@@ -500,7 +508,7 @@ def _numeric(sizes, E, terms, hermitian, fd, max_order, callback, series_only=Fa
     kw = {}
     if fd is not None:
         kw["fully_diagonalize"] = (
-            {int(b): np.array(m, dtype=bool) for b, m in fd.items()} if isinstance(fd, dict) else tuple(fd)
+            {int(b): _mask_array(m) for b, m in fd.items()} if isinstance(fd, dict) else tuple(fd)
         )
     if callback:
 
